@@ -5,6 +5,7 @@ usage: translate.py [--out DIR] [group ...]       (no group = all)
 Exit status 0 = all requested groups translated; 2 = translator stopped
 (fail-closed); the diagnostic names file, line and construct.
 """
+import ast
 import json
 import os
 import sys
@@ -199,6 +200,71 @@ def g_eos():
                                                    ('deinf_drho', ['rho']), ('dgru_drho', ['rho']), ('eta', ['rho'])]),
     ]
     return methods_group('nohblackboxeos/equations_of_state/eos_library.py', 'EosLibrary', specs)
+
+
+@group('radshock')
+def g_radshock():
+    """travelling-wave structure of the radiative-shock wrappers' _run (np.interp on flipped profile arrays with
+    shifted knots) and the upstream sound speed coded in radshock.py"""
+    from gen import translate_method
+    from py2coq import Solution, free_vars, coq_name
+    mod = Module(os.path.join(S, 'radshocks/nED_radshocks.py'))
+    text = HEADER % 'exactpack/solvers/radshocks/nED_radshocks.py, radshock.py'
+    js = {}
+    for cname, pfx in (('ED_Solver', 'rs_ed'), ('nED_Solver', 'rs_ned'), ('Sn_Solver', 'rs_sn'), ('ie_Solver', 'rs_ie')):
+        calls = []
+
+        def h_flip(interp, args, kwargs, n):
+            a = args[0]
+            if not (is_expr(a) and a[0] == 'var'):
+                interp.err(n, 'flip of a non-attribute')
+            return ('var', 'flip_' + a[1])
+
+        def h_interp(interp, args, kwargs, n):
+            calls.append((args[0], args[1], args[2]))
+            return ('var', 'I%d' % (len(calls) - 1))
+        ret, interp = translate_method(mod, cname, '_run', ['x', 't'], [], frozen_self=False,
+                                       extra_helpers={'flip': h_flip, 'interp': h_interp,
+                                                      'ExactSolution': lambda i, a, k, n: Solution(a[0], k.get('names', a[1] if len(a) > 1 else None))})
+        if not isinstance(ret, Solution):
+            raise Unsupported('%s._run does not return ExactSolution' % cname)
+        fields = []
+        shift = None
+        for nm, e in zip(ret.names[1:], ret.data[1:]):
+            if not (is_expr(e) and e[0] == 'var' and e[1].startswith('I')):
+                raise Unsupported('%s._run: field %s is not a plain np.interp result' % (cname, nm))
+            xq, xp, fp = calls[int(e[1][1:])]
+            if xq != ('var', 'x') or not (is_expr(fp) and fp[0] == 'var' and fp[1].startswith('flip_')):
+                raise Unsupported('%s._run: field %s is not interp(x, knots, flip(profile))' % (cname, nm))
+            if not (is_expr(xp) and xp[0] == 'add' and xp[1] == ('neg', ('var', 'flip_x')) and 'flip_x' not in free_vars(xp[2])):
+                raise Unsupported('%s._run: knots of %s are not -flip(self.x) + shift' % (cname, nm))
+            if shift is None:
+                shift = xp[2]
+            elif shift != xp[2]:
+                raise Unsupported('%s._run: fields use different shifts' % cname)
+            fields.append((nm, fp[1][5:]))
+        if ret.data[0] != ('var', 'x'):
+            raise Unsupported('%s._run: first column is not the input' % cname)
+        args = sorted(free_vars(shift))
+        text += '\n' + emit_function(pfx + '_shift', args, shift, comment='%s._run: every field is interp(x, -flip(self.x) + SHIFT, flip(self.<profile>))' % cname)
+        text += 'Definition %s_profiles : list (string * string) := [%s].\n' % (pfx, '; '.join('("%s"%%string, "%s"%%string)' % f for f in fields))
+        js[pfx] = {'shift_args': args, 'shift': expr_to_json(shift), 'fields': fields}
+    # upstream sound speed as coded in radshock.RadShock.__init__ / IEShock.__init__
+    mod2 = Module(os.path.join(S, 'radshocks/radshock.py'))
+    for cname, pfx in (('RadShock', 'rs_sound'), ('IEShock', 'rs_sound_ie')):
+        node = None
+        for st in mod2.classes[cname].body:
+            if isinstance(st, ast.FunctionDef) and st.name == '__init__':
+                node = st
+        argn = [a.arg for a in node.args.args[1:]]
+        ret, interp = translate_method(mod2, cname, '__init__', argn, [], frozen_self=False)
+        e = interp.selfo.attrs.get('sound')
+        if not is_expr(e):
+            raise Unsupported('radshock.%s: no numeric attribute sound' % cname)
+        args = sorted(free_vars(e))
+        text += '\n' + emit_function(pfx, args, e, comment='%s.__init__: self.sound' % cname)
+        js[pfx] = {'args': args, 'expr': expr_to_json(e)}
+    return {'RadShock': (text, js)}
 
 
 @group('footprint')
